@@ -38,6 +38,7 @@ pub fn gen(a: &Args) {
     let mut attempts = 0usize;
     let plan = mem_plan();
     let mut mem_histories = 0usize;
+    let mut plain_histories = 0usize;
     while w.len() < a.n && attempts < a.n * 4 {
         attempts += 1;
         out::describe_current(&format!("C17 history #{}", attempts));
@@ -46,13 +47,16 @@ pub fn gen(a: &Args) {
             mem_histories += 1;
             continue;
         }
+        plain_histories += 1;
         // 1-4 programs per history: corpus entries and random modules
         let np = 1 + rng.below(4) as usize;
         let mut progs = vec![];
         let mut printed = vec![];
-        for _ in 0..np {
-            let m = if rng.chance(1, 2) {
-                let e = &corpus[rng.below(corpus.len() as u64) as usize];
+        for pk in 0..np {
+            // the first program of the k-th modelled history is corpus entry k (round robin), so that every
+            // error path of the corpus occurs whatever the seed
+            let m = if pk == 0 || rng.chance(1, 2) {
+                let e = if pk == 0 { &corpus[plain_histories % corpus.len()] } else { &corpus[rng.below(corpus.len() as u64) as usize] };
                 w.count(&format!("prog.corpus.{}", e.name));
                 e.module.clone()
             } else {
